@@ -24,6 +24,7 @@ type WorkerOpts struct {
 	Mode       string // engine specific (e.g. C11: det | race)
 	KeepTrace  bool
 	Bin        string // path of the numscript binary built from the working tree (C19 subprocess tier, C20)
+	UpTo       int64  // >= 0: run loop steps 0..UpTo and stop (sequence replay of a worker's history)
 }
 
 // Loop drives a worker: it calls step(i, caseSeed) for i = 0,1,2.. until the
@@ -35,6 +36,7 @@ type Loop struct {
 	digest  [32]byte
 	seen    map[string]int // violation signature -> count
 	MaxRepl int
+	StepNow int64
 }
 
 func NewLoop(o WorkerOpts) *Loop {
@@ -44,7 +46,12 @@ func NewLoop(o WorkerOpts) *Loop {
 
 func (l *Loop) Run(step func(i int64, caseSeed uint64)) {
 	for i := int64(0); ; i++ {
-		if l.Opts.MaxCases > 0 {
+		l.StepNow = i
+		if l.Opts.UpTo >= 0 {
+			if i > l.Opts.UpTo {
+				break
+			}
+		} else if l.Opts.MaxCases > 0 {
 			if i >= l.Opts.MaxCases {
 				break
 			}
@@ -85,6 +92,7 @@ func (l *Loop) AddReplay(v Violation, caseSeed uint64, c any, original any, trac
 		ob, _ = json.Marshal(original)
 	}
 	l.Rep.Replays = append(l.Rep.Replays, Replay{
+		Worker: l.Opts.Worker, Workers: l.Opts.Workers, Tier: l.Opts.Tier, Step: l.StepNow, Mode: l.Opts.Mode,
 		Property: l.Opts.Property, Seed: l.Opts.Seed, CaseSeed: caseSeed, Violation: v,
 		Case: cb, Original: ob, Trace: trace, TraceHash: traceHash, SourceHash: l.Opts.SourceHash,
 		Shrinks: shrinks, Schedule: schedule,
